@@ -79,7 +79,9 @@ func (s *Shard) GetMode() mode.Mode {
 }
 
 func (s *Shard) setModeStorage(m mode.Mode) error {
-	if s.info.Mode == m {
+	// compare with the state the storage is really in: after a partially failed
+	// mode change the reported mode says nothing about it
+	if s.storageReadOnly == m.ReadOnly() {
 		return nil
 	}
 
@@ -92,6 +94,7 @@ func (s *Shard) setModeStorage(m mode.Mode) error {
 	if err != nil {
 		return fmt.Errorf("can't set storage mode (old=%s, new=%s): %w", s.info.Mode, m, err)
 	}
+	s.storageReadOnly = m.ReadOnly()
 
 	return nil
 }
